@@ -248,6 +248,17 @@ func Build(spec Spec) *Built {
 			fapi.Decls = append(fapi.Decls, n)
 			env.Val = fn
 			env.Helper = helpers[r.Intn(len(helpers))]
+			if t.Kind == "struct" {
+				var ppo *Allow
+				if coin(1, 3) {
+					ppo = b.randAllow(r, allowPool)
+				}
+				pfn := &Func{Pkg: d, Name: "Pass" + strings.ToUpper(t.Name[:1]) + t.Name[1:], TestOnly: coin(1, 2), PkgOnly: ppo, File: fapi}
+				pn := &Node{Fn: pfn, Doc: fnDoc(pfn)}
+				pn.Pre = []*Line{b.tl("func "+pfn.Name+"(x *%T) *%T { return x }", refT(t, SubParam), refT(t, SubResult))}
+				fapi.Decls = append(fapi.Decls, pn)
+				env.Pass = pfn
+			}
 			infos = append(infos, tinfo{t, env})
 			bt.Types = append(bt.Types, t)
 
@@ -907,6 +918,16 @@ end:
 	_, _ = e, e2
 	return x, nil
 }
+`
+	src += `//line a.go:9
+func exoticLineDirective(x *$T) { x.F = 99 }
+//line a.go:12:3
+func exoticLineDirectiveCol(x *$T) { x.F++ }
+//line /nonexistent/dir/gen.y:7
+func exoticLineDirectiveMissing(x *$T) { x.S[0] = 1 }
+/*line b.go:4*/ func exoticLineDirectiveBlock(x *$T) { x.F -= 1 }
+//line exotic.go:1000000
+func exoticLineDirectiveBeyond(x *$T) { x.F = 3; _ = $T{} }
 `
 	src = strings.ReplaceAll(src, "$B", t.Name)
 	src = strings.ReplaceAll(src, "$T", T)
